@@ -5,6 +5,7 @@ import (
 	"context"
 	"fmt"
 	"io"
+	"strings"
 
 	md "github.com/ddddddO/gtree/markdown"
 )
@@ -21,6 +22,7 @@ func split(ctx context.Context, r io.Reader) (<-chan string, <-chan error) {
 		}()
 
 		block := ""
+		isSharpRoot := false // once a # heading is seen, list items are no longer roots (same rule as the parser)
 		for sc.Scan() {
 			verifPoint("split.scan")
 			select {
@@ -28,7 +30,10 @@ func split(ctx context.Context, r io.Reader) (<-chan string, <-chan error) {
 				return
 			default:
 				l := sc.Text()
-				if isRootBlockBeginning(l) {
+				if strings.HasPrefix(l, "#") {
+					isSharpRoot = true
+				}
+				if isRootBlockBeginning(l) && (!isSharpRoot || strings.HasPrefix(l, "#")) {
 					if len(block) != 0 {
 						verifPoint("split.send")
 						select {
